@@ -337,7 +337,7 @@ pub proof fn lemma_C04_incoming_calls_are_the_references(v: NavV, us: Seq<UseV>,
 //@tags C05
 /// a usage that `hit`s (line, name, span) also `covers` (line, span): if some usage hits, some usage covers
 pub proof fn lemma_first_use_weaken(us: Seq<UseV>, p: spec_fn(UseV) -> bool, q: spec_fn(UseV) -> bool)
-    requires first_use(us, p) is Some, forall|u: UseV| p(u) ==> q(u)
+    requires first_use(us, p) is Some, forall|u: UseV| #[trigger] p(u) ==> q(u)
     ensures first_use(us, q) is Some
     decreases us.len()
 {
